@@ -90,8 +90,13 @@ def check(case, rec):
     if case.get('huge'):
         return check_huge(case, rec)
     fs = case['fs']
-    data, _i, lay = encode_file(fs)
     ex = expected_content(fs)
+    if case.get('plan_picks') is not None:
+        # the same content in a compressed physical encoding (inherited object lists and indexes, metadata-less segments)
+        from vf import plans as P
+        fs, _plans = P.encode_with_plans(fs, lambda i, alts: P.nth_plan(alts, case['plan_picks'][i]))
+        rec.label('compressed_encoding')
+    data, _i, lay = encode_file(fs)
     cut = case.get('cut')
     truncated = False
     if cut is not None and lay:
@@ -230,6 +235,9 @@ def cases(draw, **kw):
     if draw(st.integers(0, 2)) == 0:
         # one interleaved segment before the last one ends in an incomplete chunk (complete rows only are its content)
         fs = draw(S.shorten_interleaved_middle(fs))
+    if draw(st.integers(0, 2)) == 0:
+        # raw-data-only segments that repeat the last layout and chunk count
+        fs = draw(S.with_continuation(fs))
     picks = draw(st.lists(st.tuples(st.integers(0, 10 ** 6), st.integers(0, 10 ** 6), st.integers(0, 10 ** 6)),
                           min_size=60, max_size=60))
     cut = draw(st.one_of(st.none(), st.none(), st.integers(0, 10 ** 6)))
@@ -446,6 +454,19 @@ def check_huge(case, rec):
 
 
 @st.composite
+def plan_cases(draw):
+    from props.C02 import history
+    h = draw(history(max_segments=6, max_channels=3))
+    picks = draw(st.lists(st.tuples(st.integers(0, 10 ** 6), st.integers(0, 10 ** 6), st.integers(0, 10 ** 6)),
+                          min_size=40, max_size=40))
+    cut = draw(st.one_of(st.none(), st.integers(0, 10 ** 6)))
+    last = h['fs']['segments'][-1]
+    if cut is not None and any(t == 'str' for (_p, t, _n) in last['active']):
+        cut = None
+    return {'fs': h['fs'], 'plan_picks': h['picks'], 'picks': [list(x) for x in picks], 'cut': cut, 'raw_ts': True}
+
+
+@st.composite
 def scaled_cases(draw):
     from props.C13 import cases as c13_cases
     picks = draw(st.lists(st.tuples(st.integers(0, 10 ** 6), st.integers(0, 10 ** 6), st.integers(0, 10 ** 6)),
@@ -476,11 +497,14 @@ def jobs(tier):
                 Job('long_files_shared_offset_prefix', 'hyp', twin_cases, n=64),
                 Job('daqmx_files', 'hyp', daqmx_cases, n=700, check=check_daqmx),
                 Job('scaled_channels', 'hyp', scaled_cases, n=700, check=check_scaled),
+                Job('inherited_metadata_files', 'hyp', plan_cases, n=1200,
+                    note='C02 histories in a compressed encoding (inherited lists / indexes, metadata-less segments), also cut'),
                 Job('virtual_files_of_2_to_12_GiB', 'hyp', huge_cases, n=160, check=check_huge,
                     note='files that exist only as a formula: windows, slices and indices around byte positions 2^31, 2^32, 2^33')]
     return [Job('files', 'hyp', lambda: cases(), n=40000),
             Job('long_files_shared_offset_prefix', 'hyp', twin_cases, n=2000),
             Job('daqmx_files', 'hyp', daqmx_cases, n=20000, check=check_daqmx),
             Job('scaled_channels', 'hyp', scaled_cases, n=20000, check=check_scaled),
+            Job('inherited_metadata_files', 'hyp', plan_cases, n=30000),
             Job('virtual_files_of_2_to_12_GiB', 'hyp', huge_cases, n=4000, check=check_huge),
             Job('wider', 'hyp', lambda: cases(max_segments=8, max_n=9, max_chunks=5, max_channels=4), n=10000)]
